@@ -329,13 +329,38 @@ pub fn expect(s: &RSchema, id: Id, c: &Call, o: &Opts) -> Expect {
 			_ => Expect::Unspecified,
 		},
 		Eff::Duration => {
-			let u32s = |xs: &[&Call]| -> Option<Vec<u32>> {
-				xs.iter()
-					.map(|x| match x {
-						Call::U32(v) => Some(*v),
-						_ => None,
-					})
-					.collect()
+			// a component is a number of months / days / milliseconds in 0..2^32: an integer of any width inside that range
+			// denotes it (the serializer may still refuse widths it does not take), one outside it cannot be represented
+			enum Comp {
+				Is(u32),
+				OutOfRange,
+				NotANumber,
+			}
+			let comp = |x: &Call| -> Comp {
+				if !x.is_int() {
+					return Comp::NotANumber;
+				}
+				match x.as_int() {
+					Some(n) if (0..=u32::MAX as i128).contains(&n) => Comp::Is(n as u32),
+					_ => Comp::OutOfRange,
+				}
+			};
+			// Ok(values) / Err(Some(MustErr reason)) / Err(None) = unspecified
+			let u32s = |xs: &[&Call]| -> Result<Vec<u32>, Option<&'static str>> {
+				let mut out = Vec::new();
+				let mut unspecified = false;
+				for x in xs {
+					match comp(x) {
+						Comp::Is(v) => out.push(v),
+						Comp::OutOfRange => return Err(Some("duration component outside 0..2^32")),
+						Comp::NotANumber => unspecified = true,
+					}
+				}
+				if unspecified {
+					Err(None)
+				} else {
+					Ok(out)
+				}
 			};
 			match c {
 				Call::Bytes(b) => {
@@ -361,9 +386,10 @@ pub fn expect(s: &RSchema, id: Id, c: &Call, o: &Opts) -> Expect {
 						if v[idx].is_some() {
 							return Expect::MustErr("duplicated duration field");
 						}
-						match x {
-							Call::U32(n) => v[idx] = Some(*n),
-							_ => return Expect::Unspecified,
+						match comp(x) {
+							Comp::Is(n) => v[idx] = Some(n),
+							Comp::OutOfRange => return Expect::MustErr("duration component outside 0..2^32"),
+							Comp::NotANumber => return Expect::Unspecified,
 						}
 					}
 					match v {
@@ -383,9 +409,10 @@ pub fn expect(s: &RSchema, id: Id, c: &Call, o: &Opts) -> Expect {
 						if v[idx].is_some() {
 							return Expect::MustErr("duplicated duration field");
 						}
-						match x {
-							Call::U32(n) => v[idx] = Some(*n),
-							_ => return Expect::Unspecified,
+						match comp(x) {
+							Comp::Is(n) => v[idx] = Some(n),
+							Comp::OutOfRange => return Expect::MustErr("duration component outside 0..2^32"),
+							Comp::NotANumber => return Expect::Unspecified,
 						}
 					}
 					match v {
@@ -397,9 +424,10 @@ pub fn expect(s: &RSchema, id: Id, c: &Call, o: &Opts) -> Expect {
 					Some((hint, xs)) => {
 						let refs: Vec<&Call> = xs.iter().collect();
 						match u32s(&refs) {
-							Some(v) if v.len() == 3 && hint.map_or(true, |h| h == 3) => exact(Val::Duration(v[0], v[1], v[2])),
-							Some(_) => Expect::MustErr("wrong duration length"),
-							None => Expect::Unspecified,
+							Ok(v) if v.len() == 3 && hint.map_or(true, |h| h == 3) => exact(Val::Duration(v[0], v[1], v[2])),
+							Ok(_) => Expect::MustErr("wrong duration length"),
+							Err(Some(w)) => Expect::MustErr(w),
+							Err(None) => Expect::Unspecified,
 						}
 					}
 					None => Expect::Unspecified,
@@ -585,17 +613,15 @@ fn union_expect(s: &RSchema, bs: &[Id], c: &Call, o: &Opts) -> Expect {
 	}
 	// twins: several equally suitable branches of the same named kind (or map+record for an
 	// anonymous map)
+	// (only when every candidate is such a twin: with a candidate of another kind around - a `string` next to
+	// two fixed of the text's length - that one may be the better choice, which this model does not rank)
 	if cands.len() >= 2 {
 		let cats: Vec<u32> = cands.iter().map(|(i, _)| twin_cat(s, bs[*i])).collect();
 		let anonymous_map = matches!(c, Call::Map(..));
-		for a in 0..cats.len() {
-			for b in a + 1..cats.len() {
-				let same = cats[a] != 0 && cats[a] == cats[b] && cats[a] != 3;
-				let map_vs_record = anonymous_map && ((cats[a] == 1 && cats[b] == 3) || (cats[a] == 3 && cats[b] == 1));
-				if same || map_vs_record {
-					return Expect::MustErr("type-directed union choice with several equally suitable branches");
-				}
-			}
+		let all_same = cats[0] != 0 && cats[0] != 3 && cats.iter().all(|&x| x == cats[0]);
+		let all_map_or_record = anonymous_map && cats.iter().all(|&x| x == 1 || x == 3) && cats.contains(&1) && cats.contains(&3);
+		if all_same || all_map_or_record {
+			return Expect::MustErr("type-directed union choice with several equally suitable branches");
 		}
 	}
 	Expect::AnyOf(
